@@ -151,7 +151,9 @@ M("C11", "natom-drop-branch", "iodata/iodata.py", r"        elif self\.atmasses 
 M("C11", "setter-keep-charge", "iodata/iodata.py", r"                    self\._nelec = self\._atcorenums\.sum\(\) - self\._charge\n                self\._charge = None", "                    self._nelec = self._atcorenums.sum() - self._charge", "C11-R4")
 M("C11", "nelec-setter-writes-with-mo", "iodata/iodata.py", r'            raise TypeError\("nelec cannot be set when orbitals are present\."\)', "            self._nelec = nelec", "C11-R2")
 M("C11", "charge-getter-stored", "iodata/iodata.py", r"        return self\.atcorenums\.sum\(\) - self\.nelec", "        return self._charge", "C11-R3")
-M("C11", "postinit-skip-spinpol", "iodata/iodata.py", r"        if self\._spinpol is not None:\n            self\.spinpol = self\._spinpol\n", "", "C11-R5")
+# without orbitals the replay of nelec / spinpol stores what attrs already stored: behaviour-preserving since fix 5c06459
+T("C11", "postinit-skip-spinpol", "iodata/iodata.py", r"            if self\._spinpol is not None:\n                self\.spinpol = self\._spinpol\n", "")
+M("C11", "postinit-skip-atcorenums", "iodata/iodata.py", r"        if self\._atcorenums is not None:\n            self\.atcorenums = self\._atcorenums\n", "", "C11-R5")
 T("C11", "natom-reorder-branches", "iodata/iodata.py", r"(        elif self\.atfrozen is not None:\n            natom = len\(self\.atfrozen\)\n)(        elif self\.atmasses is not None:\n            natom = len\(self\.atmasses\)\n)", r"\2\1")
 # ----------------------------------------------------------------------------- C12
 M("C12", "beta-slice-norbb", "iodata/orbitals.py", r"        return self\.energies\[self\.norba :\]", "        return self.energies[self.norbb :]", "C12-R3")
@@ -288,6 +290,39 @@ M("C18", "library-absorbs-arithmetic-error", F + "molden.py", r"        fixed_sh
 M("C18", "passthrough-in-set-order", F + "json_qcschema.py", r"    for key in parsed_keys:\n        del result\[key\]\n", "    result = {key: result[key] for key in set(result).difference(keys)}\n", "C18-R7")
 M("C19", "orca-atom-line-dropped", "iodata/inputs/orca.py", r"    if template is None:\n        template = default_template\n    if atom_line is None:\n        atom_line = default_atom_line\n", "    if template is None:\n        template, atom_line = default_template, default_atom_line\n    elif atom_line is None:\n        atom_line = default_atom_line\n", "C19-R4")
 M("C20", "eigh-overwrites-overlap", "iodata/utils.py", r"eigh\(sds, overlap\)", "eigh(sds, overlap, overwrite_b=True)", "C20-R5")
+# ----------------------------------------------------------------------------- additions (fourth round, batch 6)
+M("C07", "extxyz-title-parsed-after-putback", F + "extxyz.py", r"    atom_columns, title_data = _parse_title\(title_line, lit\)\n    lit\.back\(title_line\)\n    lit\.back\(atom_line\)\n", "    lit.back(title_line)\n    lit.back(atom_line)\n    atom_columns, title_data = _parse_title(title_line, lit)\n", "C07-R8")
+M("C07", "mol2-atom-loop-skips-blank-lines", F + "mol2.py", r"(    for i in range\(natoms\):\n        words = next\(lit\)\.split\(\)\n)", "\\1        if not words:\n            continue\n", "C07-R9")
+M("C08", "json-basis-schema-not-rejected", F + "json_qcschema.py", r'    if schema_name == "qcschema_basis":\n        raise PrepareDumpError\(f"\{schema_name\} not yet implemented in IOData\.", filename\)\n', "", "C08-R7")
+M("C08", "json-missing-schema-name-not-rejected", F + "json_qcschema.py", r'    if "schema_name" not in data\.extra:\n        raise PrepareDumpError\(\n            "Cannot write qcschema file without \'schema_name\' defined\.", filename\n        \)\n    schema_name = data\.extra\["schema_name"\]\n', '    schema_name = data.extra.get("schema_name")\n', "C08-R7")
+M("C08", "decorator-changes-warning-filters", "iodata/api.py", r"            with warnings\.catch_warnings\(record=True\) as warning_list:\n", "            with warnings.catch_warnings(record=True) as warning_list:\n                warnings.simplefilter(\"always\")\n", "C08-R1")
+M("C09", "input-fields-merged-into-caller-dicts", "iodata/inputs/common.py", r"    fields\.update\(user_fields\)\n", "    for key, value in user_fields.items():\n        if isinstance(value, dict) and isinstance(fields.get(key), dict):\n            fields[key].update(value)\n        else:\n            fields[key] = value\n", "C09-R1")
+M("C10", "wfn-conversion-only-for-f-shells", F + "wfn.py", r"    permutation, signs = convert_conventions\(data\.obasis, CONVENTIONS\)\n    raw_coeffs = data\.mo\.coeffs\[permutation\] \* signs\.reshape\(-1, 1\)\n", "    raw_coeffs = data.mo.coeffs\n    if max(shell.angmoms[0] for shell in data.obasis.shells) > 2:\n        permutation, signs = convert_conventions(data.obasis, CONVENTIONS)\n        raw_coeffs = raw_coeffs[permutation] * signs.reshape(-1, 1)\n", "C10-R9")
+M("C10", "wfx-scales-in-source-order", F + "wfx.py", r"obasis = MolecularBasis\(shells, CONVENTIONS, data\.obasis\.primitive_normalization\)", "obasis = MolecularBasis(shells, data.obasis.conventions, data.obasis.primitive_normalization)", "C10-R8")
+M("C12", "norbab-validator-compares-stored-counts", "iodata/orbitals.py", r'        norb_other = mo\.norbb if \(attribute\.name == "norba"\) else mo\.norba\n        if value != norb_other:', "        if mo.norba != mo.norbb:", "C12-R1")
+M("C12", "spinpol-guess-before-explicit-aminusb", "iodata/orbitals.py", r"            if self\.occs_aminusb is None:\n                # heuristics \.\.\.\n                if \(self\.occs == self\.occs\.astype\(int\)\)\.all\(\):", "            if True:\n                # heuristics ...\n                if (self.occs == self.occs.astype(int)).all():", "C12-R5", also=[(r"                # restricted closed-shell natural orbitals\n                return 0\.0\n", "                # restricted closed-shell natural orbitals\n                if self.occs_aminusb is None:\n                    return 0.0\n")])
+M("C13", "gromacs-putback-in-reading-order", F + "gromacs.py", r"        lit\.back\(line\)\n        for skipped_line in reversed\(skipped\):\n            lit\.back\(skipped_line\)\n", "        for skipped_line in skipped:\n            lit.back(skipped_line)\n        lit.back(line)\n", "C13-R11")
+M("C13", "sdf-blank-lines-dropped", F + "sdf.py", r"        lit\.back\(line\)\n        for skipped_line in reversed\(skipped\):\n            lit\.back\(skipped_line\)\n", "        lit.back(line)\n", "C13-R11")
+T("C13", "gromacs-putback-in-one-loop", F + "gromacs.py", r"        lit\.back\(line\)\n        for skipped_line in reversed\(skipped\):\n            lit\.back\(skipped_line\)\n", "        for pending in reversed([*skipped, line]):\n            lit.back(pending)\n")
+M("C14", "fchk-segmentation-only-with-orbitals", F + "fchk.py", r"(def prepare_dump(?:.|\n)*?)\n    return prepare_segmented\(([^\n]*)\)\n", "\\1\n    if data.mo is not None:\n        return prepare_segmented(\\2)\n    return data\n", "C14-R6")
+M("C17", "decorator-stores-marked-up-names", "iodata/docstrings.py", r"    ifpresent = ifpresent or \[\]\n", "    ifpresent = [f\"``{word}``\" for word in ifpresent or []]\n", "C17-R7")
+M("C01", "molekel-no-leading-separator", F + "molekel.py", r"    iatom_last = 0\n", "    iatom_last = data.obasis.shells[0].icenter\n", "C01-R12")
+T("C01", "molekel-separators-by-while-loop", F + "molekel.py", r"        for _ in range\(iatom_new - iatom_last\):\n            f\.write\(\"\$\$\\n\"\)\n", "        while iatom_last < iatom_new:\n            f.write(\"$$\\\\n\")\n            iatom_last += 1\n")
+M("C01", "wfx-restricted-labels-by-occupation", F + "wfx.py", r'mo_spin = \["Alpha and Beta "\] \* len\(data\.mo\.occs\)', 'mo_spin = ["Alpha and Beta " if occ > 1.0 else "Alpha" for occ in data.mo.occs]', "C01-R13")
+M("C02", "wfn-spin-template-too-short", F + "wfn.py", r'FMT_SPIN, STEP_SPIN = _format_helper_section\("", 0, "\{:2d\}", 40\)', 'FMT_SPIN, STEP_SPIN = _format_helper_section("", 0, "{:2d}", 20)', "C02-R16")
+M("C02", "molekel-single-separator-per-change", F + "molekel.py", r"        for _ in range\(iatom_new - iatom_last\):\n            f\.write\(\"\$\$\\n\"\)\n", "        if iatom_new != iatom_last:\n            f.write(\"$$\\\\n\")\n", "C02-R15")
+for _p, _r in (("C04", "R6"), ("C05", "R12")):
+    M(_p, "molden-atoms-unit-exact-match", F + "molden.py", r'            if "au" in line:\n                cunit = 1\.0\n            elif "angs" in line:\n                cunit = angstrom\n', '            cunit = angstrom if line[len("[atoms]") :].strip() == "angs" else 1.0\n', f"{_p}-{_r}")
+T("C04", "molden-atoms-unit-by-regex-free-search", F + "molden.py", r'            if "au" in line:\n                cunit = 1\.0\n            elif "angs" in line:\n                cunit = angstrom\n', '            cunit = angstrom if line.find("angs") >= 0 and line.find("au") < 0 else 1.0\n')
+M("C06", "screening-after-prefactor", "iodata/overlap.py", r"                        prefactor = np\.exp\(-a0 \* a1 / at \* rij_norm_sq\)\n                        if prefactor < 1e-15:\n                            continue\n", "                        prefactor = (np.pi / at) ** (3 / 2) * np.exp(-a0 * a1 / at * rij_norm_sq)\n                        if prefactor < 1e-15:\n                            continue\n", "C06-R9")
+M("C06", "distance-from-expanded-squares", "iodata/overlap.py", r"            rij = r0 - r1\n            rij_norm_sq = np\.dot\(rij, rij\)\n", "            rij_norm_sq = np.dot(r0, r0) - 2 * np.dot(r0, r1) + np.dot(r1, r1)\n", "C06-R10")
+T("C06", "distance-inline-difference", "iodata/overlap.py", r"            rij = r0 - r1\n            rij_norm_sq = np\.dot\(rij, rij\)\n", "            rij_norm_sq = np.dot(r0 - r1, r0 - r1)\n")
+M("C11", "post-init-replays-with-orbitals", "iodata/iodata.py", r"        if self\.mo is None:\n            if self\._charge is not None:\n                self\.charge = self\._charge\n            if self\._nelec is not None:\n                self\.nelec = self\._nelec\n            if self\._spinpol is not None:\n                self\.spinpol = self\._spinpol\n", "        if self._charge is not None:\n            self.charge = self._charge\n        if self._nelec is not None:\n            self.nelec = self._nelec\n        if self._spinpol is not None:\n            self.spinpol = self._spinpol\n", "C11-R4")
+# behaviour-preserving: a stored charge next to core charges is converted lazily by the atcorenums getter / setter
+T("C11", "post-init-skips-charge", "iodata/iodata.py", r"            if self\._charge is not None:\n                self\.charge = self\._charge\n", "")
+T("C11", "post-init-skips-nelec", "iodata/iodata.py", r"            if self\._nelec is not None:\n                self\.nelec = self\._nelec\n", "")
+M("C03", "orcalog-first-geometry-kept", F + "orcalog.py", r'            result\["atnums"\], result\["atcoords"\] = _helper_geometry\(lit, natom\)\n', '            atnums_, atcoords_ = _helper_geometry(lit, natom)\n            result.setdefault("atnums", atnums_)\n            result.setdefault("atcoords", atcoords_)\n', "C03-R12")
+
 for _p in ("C01", "C02"):
     T(_p, "molekel-two-step-conversion", F + "molekel.py", r"        coeff = data\.mo\.coeffsa\[permutation\] \* signs\.reshape\(-1, 1\)\n", "        coeff = data.mo.coeffsa[permutation]\n        coeff = coeff * signs.reshape(-1, 1)\n")
     M(_p, "molekel-beta-without-permutation", F + "molekel.py", r"data\.mo\.coeffsb\[permutation\] \* signs\.reshape\(-1, 1\)", "data.mo.coeffsb * signs.reshape(-1, 1)", "%s-%s" % (_p, "R9" if _p == "C01" else "R10"))
